@@ -116,4 +116,10 @@ META["C20"] = {
     "technique": "exhaustive fault-vector enumeration with fault-injecting Signer/Verifier/crypto.Signer/io.Reader + property-based testing (rapid)",
 }
 
+META["C18"] = {
+    "text": "Property-based exploration in a race-detector build: the deterministic part of the property (every read-only operation leaves every byte of the shared message, headers, key, verifier and signer untouched) is decided by a deep memory snapshot around each single call; the schedule part by running drawn operation plans from up to 32 goroutines on the shared values under the Go race detector and comparing each result with the sequential one. Because the library has no synchronisation, a shared write is a detectable race under any interleaving, which is what makes exploration adequate here.",
+    "note": TRUST + " Trusts the Go race detector; the harness does not control the scheduler.",
+    "technique": "property-based testing (rapid) in a -race build: deep-snapshot immutability oracle + concurrent-vs-sequential result equality + Go race detector",
+}
+
 NOT_APPLICABLE = {}
